@@ -68,6 +68,15 @@ def run (ctx, repo, mods, type_parser_classes, fallback_classes=()):
             ctx.ob('R-CONTAIN', sf, "printing never fails: `%s`" % norm(x)[:50], guarded, "guarded" if guarded else
                    "%s.__str__ is the class's own (outside packet_base's catch-all) and indexes the table %s with %s, a value taken from the frame: a value that is not a key makes str()/dump() of the parse result raise KeyError"
                    % (cls.name, tbl, norm(x.slice)), (m, x), 'D4')
+        # an address object built for display from bytes of the frame: the constructors reject any other length than the address's
+        for x in walk_no_nested(n.ast) if (sf is not None and cls is not pbase and W and n.ast is not None and n.kind not in ('def', 'branch', 'handler', 'join') and not isinstance(n.ast, (ast.With, ast.For, ast.While, ast.If, ast.Try))) else []:
+          if isinstance(x, ast.Call) and call_name(x) in ('EthAddr', 'IPAddr', 'IPAddr6') and x.args and _mentions_self_field(x.args[0], W):
+            hitf = _mentions_self_field(x.args[0], W)
+            fs = q.fact_strs(g, n)
+            guarded = any(('len(self.%s' % hitf[0]) in f_ and ('==' in f_) for f_ in fs) or _in_try(g, n, ('Exception', 'BaseException', 'RuntimeError', 'ValueError'))
+            ctx.ob('R-CONTAIN', sf, "printing never fails: `%s`" % norm(x)[:50], guarded, "length tested first" if guarded else
+                   "%s.__str__ is the class's own (outside packet_base's catch-all) and builds %s from self.%s, bytes taken from the frame, without a test of their number: a frame carrying another length makes str()/dump() of the parse result raise"
+                   % (cls.name, call_name(x), hitf[0]), (m, x), 'D4')
     # ---- E2 arity of element tuples ---------------------------------------------------------------------------
     appended = {}
     for name, f in cls.methods.items():
